@@ -24,16 +24,36 @@ theorem HI_write_acc (kinds : List Kind) (links : List (Nat × List Tgt)) (hwf :
   have hnN : n < kinds.length := (h.nodesLen n).mp (by rw [hn]; rfl)
   have hgl' : getL g.links (wkey n w) = getL links (wkey n w) := by rw [h.glinks]
   obtain ⟨hst, hjb', _⟩ := jbm_op nd (aa n) g.next hjb i inbox (.write (some w) q) ops hg true
-  have hshape := write_shape g.log n nd (aa n) g.next hjb i inbox (some w) q ops hg hnl
-  have hshape' : ∃ p cs rest, (⟨p, i, .cells cs⟩ : Req) ∈ (aa n).reqs ∧ linkedIds cs = q.id :: rest ∧
-      remFor (.emit (.write (some w) q :: ops)) p = [] ∧ Unlogged g.log q.id ∧ aget g.log.owner q.id = some (qTag n) ∧
-      q.id < g.next ∧ (∀ x ∈ inbox, x.id ≠ q.id) ∧
-      (∀ y ∈ (aa n).reqs, q.id ∉ remFor (.emit (.write (some w) q :: ops)) y.p) := by
-    rcases hshape with ⟨e, _, _⟩ | hsh
-    · cases e
-    · exact hsh
-  obtain ⟨p, cs, rest, hX, hl, hrem0, hqU, hqo, hqlt, hki, hkr⟩ := hshape'
-  have hql : q.id ∈ linkedIds cs := by rw [hl]; simp
+  have hi63 : i < 63 :=
+    Nat.lt_of_lt_of_le (getThread_lt _ _ _ hg) (by rw [h.thr n nd hn]; exact nIn_le _ (h.kindOK n nd hn))
+  let a' := (awrite (aa n) (some w) q.id (.pay q.pay) true).1
+  -- the written packet is a linked packet of the thread's request, or the request itself
+  have main : ∃ x, x ∈ (aa n).reqs ∧ x.r = i ∧ q.id ∈ idsR x ∧ Unlogged g.log q.id ∧
+      (∃ τ, aget g.log.owner q.id = some τ ∧ τ / 64 = n) ∧ q.id < g.next ∧
+      ∀ lg' : Log, Tr g.log lg' q.id →
+        (∀ id ∈ nlIdsT i { inbox := inbox, pc := .emit (.write (some w) q :: ops) } (aa n),
+          aget lg'.owner id = aget g.log.owner id) →
+        NLt lg' n i { inbox := inbox, pc := nextPc ops } a' ∧
+        a'.wq = aset (aa n).wq w (getL (aa n).wq w ++ [q.id]) ∧
+        (awrite (aa n) (some w) q.id (.pay q.pay) true).2 = [] ∧ ∃ f, a'.reqs = updReq x.p f (aa n).reqs := by
+    rcases write_shape g.log n nd (aa n) g.next hjb i inbox (some w) q ops hg hnl with ⟨e1, hXe⟩ |
+      ⟨p, cs, rest, hX, hl, hrem0, hqU, hqo, hqlt, hki, hkr⟩
+    · subst e1
+      have hqi : q.id ∈ ids (aa n).reqs := mem_ids_of_mem hXe (by simp [idsR])
+      have hdis := jbm_disj nd (aa n) g.next hjb i _ hg q.id hqi
+      refine ⟨_, hXe, rfl, by simp [idsR], req_unlogged g.log n i _ (aa n) q.id hnl hXe (by simp [remFor, remOps]),
+        ⟨n * 64 + i, hnl.own _ hXe rfl, tag_reader n i hi63⟩, hjb.bnd q.id (List.mem_append_left _ hqi), ?_⟩
+      intro lg' t ho
+      obtain ⟨w1, w2, w3, w4⟩ := nlt_write_self_acc g.log lg' n i (aa n) inbox w q hnl hjb.j.inv.nodup hXe t
+        (fun x hx' e => hdis (by simp only [tids, List.mem_append, List.mem_map]; left; exact ⟨x, hx', e⟩)) ho
+      exact ⟨w1, w2, w3, _, w4⟩
+    · have hql : q.id ∈ linkedIds cs := by rw [hl]; simp
+      refine ⟨_, hX, rfl, linked_in_idsR _ cs rfl q.id hql, hqU, ⟨qTag n, hqo, tag_q n⟩, hqlt, ?_⟩
+      intro lg' t ho
+      obtain ⟨w1, w2, w3, w4⟩ := nlt_write_acc g.log lg' n i (aa n) inbox w q ops hnl hjb.j.inv.nodup p cs rest hX hl
+        hrem0 t hki (fun y hy _ _ => hkr y hy) ho
+      exact ⟨w1, w2, w3, _, w4⟩
+  obtain ⟨x, hxm, hxr, hqx, hqU, ⟨τ, hqo, hτ⟩, hqlt, post⟩ := main
   have hnot : ∀ t' ∈ getL links (wkey n w), ∀ port, t' ≠ Tgt.node n port := by
     intro t' ht' port e
     subst e
@@ -53,19 +73,16 @@ theorem HI_write_acc (kinds : List Kind) (links : List (Nat × List Tgt)) (hwf :
     show aget P.log.owner id = _
     exact pushAllG_owner_old (wkey n w) q.pay ts gb id hid
   have hlt := nlIdsT_lt nd (aa n) g.next hjb i _ hg
-  obtain ⟨w1, w2, w3, w4⟩ := nlt_write_acc g.log lg' n i (aa n) inbox w q ops hnl hjb.j.inv.nodup p cs rest hX hl hrem0
-    (tr_of_ext g.log lg' q.id hxl) hki (fun y hy _ _ => hkr y hy) (fun id hid => hoO id (hlt id hid))
+  obtain ⟨w1, w2, w3, f, w4⟩ := post lg' (tr_of_ext g.log lg' q.id hxl) (fun id hid => hoO id (hlt id hid))
   have hev : (acall (aa n) (opCall true (.write (some w) q))).2 = [] := w3
   rw [hev] at hst
   let nd' : Node := { nd with tr := (tcall nd.tr (opCall true (.write (some w) q))).1,
                               threads := setThread nd.threads i { inbox := inbox, pc := nextPc ops } }
-  let a' := (awrite (aa n) (some w) q.id (.pay q.pay) true).1
   have hths := hths_of_set nd.threads i _ { inbox := inbox, pc := nextPc ops } hg
   have hgi' : getThread nd'.threads i = some { inbox := inbox, pc := nextPc ops } := by rw [hths i]; simp
   have hrdall : ∀ port, (a'.reqs.filter (fun x => x.r = port)).map (·.p) =
       ((aa n).reqs.filter (fun x => x.r = port)).map (·.p) := by
-    intro port; show ((awrite (aa n) (some w) q.id (.pay q.pay) true).1.reqs.filter _).map _ = _
-    rw [w4]; exact readsOf_upd (aa n).reqs p _ port
+    intro port; rw [w4]; exact readsOf_upd (aa n).reqs x.p _ port
   refine ⟨nd', hst, hn1, ?_⟩
   have hgetF : ∀ m, getNode (setNode P.nodes n nd') m = if m = n then some nd' else getNode P.nodes m :=
     fun m => getNode_setNode P.nodes n m nd' (by rw [hn1]; rfl)
@@ -106,10 +123,9 @@ theorem HI_write_acc (kinds : List Kind) (links : List (Nat × List Tgt)) (hwf :
     simp only [updA, if_true]
     exact nlm_step g.log lg' q.id (tr_of_ext g.log lg' q.id hxl) m nd nd' (aa m) a' g.next hjb (h.nl m nd hn) i _
       { inbox := inbox, pc := nextPc ops } hg hths w1
-      (others_kept (aa m) ⟨p, i, .cells cs⟩ hjb.j.inv.nodup hX _ a' (fun y hy => by
-        have : y ∈ (awrite (aa m) (some w) q.id (.pay q.pay) true).1.reqs := hy
-        rw [w4] at this; exact this))
-      (Or.inr (Or.inr ⟨_, hX, rfl, linked_in_idsR _ cs rfl q.id hql⟩)) hoO
+      (fun y hy hyr => others_kept (aa m) x hjb.j.inv.nodup hxm f a' (fun y hy => by rw [w4] at hy; exact hy) y hy
+        (by rw [hxr]; exact hyr))
+      (Or.inr (Or.inr ⟨x, hxm, hxr, hqx⟩)) hoO
   · intro m ndm ndF port hm hg0 hgF
     subst hm
     rw [hgetF m] at hgF
@@ -120,8 +136,8 @@ theorem HI_write_acc (kinds : List Kind) (links : List (Nat × List Tgt)) (hwf :
     by_cases e : port = i
     · rw [e, heldN_of nd' a' i _ hgi', heldN_of nd (aa m) i _ hg, hrdall i]
     · exact heldN_other nd nd' (aa m) a' i port _ e hths (hrdall port)
-  · exact Or.inr ⟨qTag n, hqo, fun m hm => by rw [tag_q]; exact fun e => hm e.symm,
-      by rw [tag_q]; exact Nat.lt_of_lt_of_le hnN hN⟩
+  · exact Or.inr ⟨τ, hqo, fun m hm => by rw [hτ]; exact fun e => hm e.symm,
+      by rw [hτ]; exact Nat.lt_of_lt_of_le hnN hN⟩
   · intro key'
     show pendH (updA aa n a') g.roots g.resp.length key' = _
     have hw64 : w < 64 := Nat.lt_of_lt_of_le hw (by decide)
